@@ -18,6 +18,7 @@ INPUT_DECL = {
     "y": ("decl", "Signal", "y", ("lit", "signal-Y", ("int", 0))),
     "r": ("decl", "Signal", "r", ("lit", "signal-R", ("int", 0))),
     "e": ("decl", "Signal", "e", ("lit", "signal-E", ("int", 0))),
+    "hm": ("decl", "Signal", "hm", ("lit", "signal-M", ("int", 0))),     # an input of the memory cells' type
 }
 DEFAULT = (0, 1, -1, 2, 7, -8, INT_MAX, INT_MIN)
 SHIFT_DOM = (0, 1, 5, 31)
